@@ -351,18 +351,11 @@ def main(tier, seed, replay=None):
                           'encode_sourcemap(...)["mappings"] = %r decodes to '
                           '%r, raw %r' % (r[2], dec, raw),
                           {'fragments': r[3]})
-    tf = os.path.join(tmp_dir('c09'), 'map.ndjson')
-    with open(tf, 'w') as f:
-        for rec in records:
-            f.write(json.dumps(rec) + '\n')
-    tr = run_tlc('MapTrace', cfg='MapTrace.cfg',
-                 cfg_text='SPECIFICATION Spec\nINVARIANT Verdict\n',
-                 modules={'Dummy_': '---- MODULE Dummy_ ----\n====\n'},
-                 workers=12, env={'TRACE_FILE': tf}, heap='8g')
-    rep.add_tlc(tr)
+    from common import validate_trace
+    tlines = validate_trace('MapTrace', records, 'c09', rep, chunk=8000)
     rep.mark('validated')
     verdicts = {}
-    for line in tr.lines:
+    for line in tlines:
         i, why, k = json.loads(line)
         verdicts[i] = (why, k)
     if len(verdicts) != len(records):
